@@ -7,6 +7,7 @@
 package c12
 
 import (
+	"os"
 	"bytes"
 	"fmt"
 	"io"
@@ -522,7 +523,9 @@ func exec(t *testing.T, s Script) (viol *vstat.Violation, classes map[string]boo
 				if u.dead || u.ended {
 					continue
 				}
-				if u.violated && op.Over {
+				if op.Over && (u.violated || paused) {
+					// while the client does not read, window updates it has not seen yet (refunded padding, for
+					// one) make the true window larger than the ledger's: "one byte too many" cannot be aimed
 					continue
 				}
 				if u.violated && paused {
@@ -645,6 +648,13 @@ func exec(t *testing.T, s Script) (viol *vstat.Violation, classes map[string]boo
 				u.mu.Unlock()
 			}
 			outstanding := connSent - connReturned
+			if outstanding > unread+4096 && os.Getenv("VERIF_DEBUG_FRAMES") != "" {
+				for _, f := range peer.Frames() {
+					if f.Type != xhttp2.FrameData {
+						fmt.Fprintf(os.Stderr, "DBG frame type=%v stream=%d flags=%x code=%v inc=%d ack=%v settings=%v\n", f.Type, f.StreamID, f.Flags, f.ErrCode, f.Increment, f.Ack, f.Settings)
+					}
+				}
+			}
 			if outstanding > unread+4096 {
 				viol = vstat.Violf("server-recv|connection-credit-not-returned", "%s: %d flow-controlled bytes sent, %d returned on the connection: %d outstanding, while live handlers hold only %d unread bytes (bound: unread + 4096)", step, connSent, connReturned, outstanding, unread)
 				break
